@@ -86,6 +86,19 @@ def detect_recycle_mode(ctx, bins):
     ctx.report_drift("neither specified variant of the builder's UUID numbering explains the probe; using RECYCLE=free")
 
 
+def continuations(sched):
+    """A deviation may sit in state that the deviating step itself does not show (the sender's idea of
+    its base, the receiver's part buffer): every deviating schedule is also re-executed with a short
+    continuation -- one more server tick for each world of the configuration, then delivery of
+    everything in flight, oldest first -- and the property layer judges the continuation as well."""
+    out = []
+    worlds = sched.get("worlds") or []
+    for w in range(1, len(worlds) + 1):
+        steps = list(sched["steps"]) + [{"a": "tick", "w": w}] + [{"a": "deliver_msg", "i": 1, "keep": False}] * 6
+        out.append({"agreed": sched.get("agreed", []), "worlds": worlds, "steps": steps})
+    return out
+
+
 def judge_trace(ctx, trace_path, what):
     ok, rj, res = sp.validate("SnapSyncTrace.tla", "Trace.cfg", trace_path, cwd=CWD, timeout=1500, heap="6g", env=env_of(ctx))
     if rj is None:
@@ -145,9 +158,10 @@ def binding_selftest(ctx, trace_path):
         for idx, ev in enumerate(evs):
             if ev["e"] != "deliver_msg" or ev["out"]["r"] != "ok" or not ev["out"]["view"]:
                 continue
-            if corrupted is None:
+            with_data = [k2 for k2, it in enumerate(ev["out"]["view"]) if it["d"]]
+            if corrupted is None and with_data:
                 c = json.loads(json.dumps(evs[:idx + 1]))
-                c[idx]["out"]["view"][0]["d"][0] += 1
+                c[idx]["out"]["view"][with_data[0]]["d"][0] += 1
                 corrupted = c
             elif dropped is None and idx + 1 < len(evs):
                 # drop the accepting delivery: later events then disagree with the spec's receiver
@@ -249,6 +263,7 @@ def run(ctx):
             ctx.sample({"cfg": ex.cfg, "steps": smp["steps"], "real_output": smp["real_out"]})
         for m in ex.mismatches:
             schedules.append(m["schedule"])
+            schedules.extend(continuations(m["schedule"]))
             sigs.add(m["sig"])
     ctx.coverage["exhaustive"] = True
     if schedules:
